@@ -7,6 +7,7 @@ import (
 
 	col "github.com/craterdog/go-collection-framework/v4/collection"
 	rt "github.com/craterdog/go-collection-framework/v4/verifrt"
+	"verif/checks/c06"
 	"verif/checks/common"
 	"verif/engine"
 	"verif/engine/dump"
@@ -623,8 +624,10 @@ func init() {
 		Rule:      "case = (entry point, size, position, mode)",
 		Assume:    []string{"association objects handed out by Catalog.AsArray/iterators are live handles by design; constructors must not keep the caller's association objects (checked)"},
 		Budget:    func(string) time.Duration { return 2 * time.Minute },
-		Units: func(string) []engine.Unit {
-			return []engine.Unit{{Name: "constructors", Run: finish(constructorAliasing)}, {Name: "results", Run: finish(resultAliasing)}, {Name: "self-operands", Run: finish(selfOperands)}}
+		Units: func(tier string) []engine.Unit {
+			us := []engine.Unit{{Name: "constructors", Run: finish(constructorAliasing)}, {Name: "results", Run: finish(resultAliasing)}, {Name: "self-operands", Run: finish(selfOperands)}}
+			// the sequence of output queues returned by Queue.Fork/Split, modified by the caller while the helper goroutine runs (every schedule)
+			return append(us, c06.ReturnedSequenceUnits(tier)...)
 		},
 	})
 }
